@@ -43,11 +43,15 @@ def sig_of(exc):
     return {"clause": "uncaught-exception", "exc": type(exc).__name__, "myst_function": inner[-1].name if inner else "?", "raised_in": where}
 
 
+URL_SCHEMES = {"http": None, "https": None, "mailto": None, "wiki": {"url": "https://w/{{path}}#{{fragment}}", "title": "{{scheme}} {{netloc}} {{params}} {{query}}", "classes": ["w"]}}
+
+
 def base_settings(scratch):
     return {
         "myst_enable_extensions": EXT, "myst_heading_anchors": 2, "myst_title_to_header": True,
         "myst_inventories": {"k": ["http://x", str(scratch / "bad.inv")], "ok": ["http://y", str(scratch / "ok.inv")]},
         "myst_substitutions": SUBS, "myst_fence_as_directive": ["mermaid", "note"], "myst_number_code_blocks": ["py"],
+        "myst_url_schemes": URL_SCHEMES,
     }
 
 
@@ -300,12 +304,27 @@ TEMPLATES = [
     "---\nmyst:\n  heading_slug_func: @\n---\n# H\n", "---\nmyst:\n  @: 1\n---\n", "x[^@]\n\n[^@]: note\n", "[@]: http://u\n\n[x][@]\n", "(@)=\n# H\n\n[](#@)\n",
     "{#@ .@ k=@}\n# H\n", "![a](b){width=@ #@}\n", "[s]{.@ #@}\n", "{{ @ }}\n", "{{ a|@ }}\n", "# @\n\n## @\n\n[](#@)\n", "|a|@|\n|-|-|\n|@|b|\n", "$@$ and $$@$$ (@)\n",
     "\\begin{@}x\\end{@}\n", "<img src=\"@\" alt=\"@\">\n", "<div class=\"@\">\n<p>x</p>\n</div>\n", "<div class=\"admonition @\" name=\"@\">\n<p class=\"title\">@</p>\n<p>x</p>\n</div>\n",
+    "[t](wiki:@)\n", "<wiki:@>\n", "```{note}\n:class: \"@\"\n\nbody\n```\n", "```{note}\n---\nclass: \"@\"\nname: '@'\n---\nbody\n```\n",
     "<@>x</@>\n", "Term @\n: def @\n", ":field @: body @\n", "- [@] task\n", "@\n===\n", "> @\n", "1. @\n", "+++ @\n", "% @\n", "@\n",
 ]
+def _field_templates():
+    """one template per MdParserConfig field: the value slot of that field in the document's own front matter"""
+    import dataclasses
+
+    from myst_parser.config.main import MdParserConfig
+
+    body = "# H\n\n[l](http://x) {{k}} ~~s~~ x[^f]\n\n[^f]: n\n\n## H\n"
+    return [f"---\nmyst:\n  {f.name}: @\n---\n{body}" for f in dataclasses.fields(MdParserConfig)
+            if f.name != "gfm_only"]  # gfm_only needs linkify-it-py, which is not installed here
+
+
+TEMPLATES += _field_templates()
 ATOMS = [
     "", " ", "a", "\u00b2", "1e9", "-1", "0", "99999999999999999999", "[", "]", "[x", "://[x", "//[x]", "%zz", "%00", "%", "\\", "\"", "'", "{", "}", "{{", "}}", "*", "`", "|", ":", "#",
     "<", ">", "&", "&#0;", "&#x110000;", "\t", "a" * 300, "\u00e9", "\u2028", "../x", "/", ".", "..", "~", "!", "|\u00b2", "null", "true", "2020-01-01", "!!binary aGk=", "*x", "&x y",
     "- a", "? a", "[1, 2]", "{a: b}", "a: b", "a # b", "x\ny", "\u202e", "\ud7ff", "\x7f", "$", "\\n", "os.nope", "os.", "a.b.c",
+    "2023-02-30", "!!int \"x\"", "!!bool \"x\"", "!!timestamp \"x\"", "{2020-01-01: x}", "[2020-01-01]", "C:\\qux", "org\\1", "%5Cdocs", "a\\x-1b", "\\u-001", "\\U-0000001", "\\x+1", "\\x1_",
+    "3", "[a]", "{http: null}", "false", "1.5",
 ]
 
 
@@ -364,7 +383,7 @@ class SphinxSlotSystem(System):
     def worker_init(self, wid):
         from ..drivers import SphinxDriver
 
-        conf = (f"myst_enable_extensions={EXT!r}\nmyst_heading_anchors=2\nmyst_title_to_header=True\nmyst_substitutions={SUBS!r}\n")
+        conf = (f"myst_enable_extensions={EXT!r}\nmyst_heading_anchors=2\nmyst_title_to_header=True\nmyst_substitutions={SUBS!r}\nmyst_url_schemes={URL_SCHEMES!r}\n")
         self.drv = SphinxDriver(self.root / f"w{wid}", conf=conf)
         prepare_files(self.drv.src)
 
